@@ -74,6 +74,7 @@ structure BodySpec where
   fails  : List (Nat × Nat × String) := []
   recurK : Nat := 0
   isRec  : Bool := false
+  failHash : Option (Nat × Nat × String) := none     -- raise cls iff fnv(kwargs) % m == r
   deriving Inhabited
 
 def jVal (j : Json) : Val :=
@@ -105,12 +106,23 @@ def parseCfg (j : Json) : NodeCfg × BodySpec :=
   ({ name := getStrD j "name", attempts := getNat? j "attempts", delay := getNat? j "delay",
      exceptions := excs, useDefault := getBoolD j "use_default", mode := parseMode (getStrD j "mode" "coro") },
    { kind := getStrD body "kind" "prov", const := jVal ((body.getObjVal? "v").toOption.getD .null),
-     fails := fails, recurK := (getNat? j "recur_k").getD 0, isRec := getBoolD j "is_rec" })
+     fails := fails, recurK := (getNat? j "recur_k").getD 0, isRec := getBoolD j "is_rec",
+     failHash := match j.getObjVal? "fail_hash" with
+       | .ok (.arr #[a, b, c]) => match a.getNat?.toOption, b.getNat?.toOption, c.getStr?.toOption with
+         | some m, some r, some cls => some (m, r, cls)
+         | _, _, _ => none
+       | _ => none })
 
 def bodyOf (cfg : NodeCfg) (b : BodySpec) (n : Node) (kw : Kwargs) (inv att : Nat) : BodyOutcome :=
   match b.fails.find? (fun (i, a, _) => i == inv && a == att) with
   | some (_, _, cls) => .raise ⟨cls, n, inv, att⟩
   | none =>
+    let hashFail : Option String := match b.failHash with
+      | some (m, r, cls) => if m > 0 && (fnv1a64 (kwStr kw)).toNat % m == r then some cls else none
+      | none => none
+    match hashFail with
+    | some cls => .raise ⟨cls, n, inv, att⟩
+    | none =>
     if b.isRec && inv < b.recurK then .ret (.recur (.str s!"it{inv}"))
     else if b.kind == "prov" then .ret (.str (prov cfg.name kw))
     else .ret b.const
